@@ -129,9 +129,13 @@ class EarlyStopping(CallbackBase):
         ) - self.value_getter(self.quantity_name)
 
     def _relative_change(self):
-        relative_change = self._change_in_metric() / self.value_getter(
-            self.quantity_name, -self.patience - 1
-        )
+        # divide with numpy semantics whatever the type of the stored values:
+        # a zero reference gives inf/nan (never below any tolerance) instead of
+        # a ZeroDivisionError for plain Python floats
+        change = self._change_in_metric()
+        reference = self.value_getter(self.quantity_name, -self.patience - 1)
+        with np.errstate(divide="ignore", invalid="ignore"):
+            relative_change = np.divide(change, reference)
         return abs(relative_change)
 
     def _absolute_change(self):
